@@ -270,8 +270,14 @@ func RunC17Synth(r *report.Run, b Bins, tier string, seed int64) {
 	if tier == "thorough" {
 		n = 400
 	}
+	var cases []Case
 	for i := 0; i < n; i++ {
-		c := LegalCase(rng, fmt.Sprintf("s%d", i))
+		cases = append(cases, LegalCase(rng, fmt.Sprintf("s%d", i)))
+	}
+	// documented-illegal definitions: rejecting them is C16's subject; but if the plugin emits stubs for one, those stubs are
+	// held to the declared options like any others
+	cases = append(cases, IllegalCases(rng, "si")...)
+	for i, c := range cases {
 		protos := c.Protos()
 		if plugin.Validate(protos) != nil {
 			continue
